@@ -299,6 +299,7 @@ static json handle(json const &cmd)
     return r;
   }
   if (op == "postrun") { r["rc"] = P->post_run(); return r; }
+  if (op == "flush") { r["rc"] = P->flush_output_streams(); return r; }
   if (op == "save") {
     std::string fmt = cmd.value("fmt", "text");
     if (fmt == "text") {
